@@ -485,4 +485,102 @@ theorem snodeDfs_unfold (jcol kcol : Nat) (asub xaB xaE xprune : Array Nat) (mar
     o.supno = st.supno.setIfInBounds (kcol+1) (supno.getD jcol 0 + 1) ∧
     o.xsup = xsup.setIfInBounds (supno.getD jcol 0 + 1 + 1).toNat (kcol+1) := by
   by_cases h : jcol < kcol <;> simp [snodeDfs, snodeLoop, h]
+
+theorem foldl_setRange_getD {α : Type} (v d : α) : ∀ (n a : Nat) (x : Array α) (k : Nat),
+    ((List.range' a n).foldl (fun x i => x.setIfInBounds i v) x).getD k d =
+      if a ≤ k ∧ k < a + n ∧ k < x.size then v else x.getD k d := by
+  intro n
+  induction n with
+  | zero => intro a x k; rw [if_neg (by omega)]; rfl
+  | succ n ih =>
+    intro a x k
+    rw [List.range'_succ, List.foldl_cons, ih, getD_setIfInBounds, Array.size_setIfInBounds]
+    by_cases h1 : a = k
+    · subst h1
+      by_cases h2 : a < x.size
+      · simp [h2]
+      · simp [h2]
+    · by_cases h2 : a + 1 ≤ k ∧ k < a + 1 + n ∧ k < x.size
+      · rw [if_pos h2, if_pos (by omega)]
+      · rw [if_neg h2, if_neg (by omega), if_neg (by omega)]
+
+theorem foldl_setRange_size {α : Type} (v : α) : ∀ (n a : Nat) (x : Array α),
+    ((List.range' a n).foldl (fun x i => x.setIfInBounds i v) x).size = x.size := by
+  intro n
+  induction n with
+  | zero => intro a x; simp
+  | succ n ih => intro a x; rw [List.range'_succ, List.foldl_cons, ih]; simp
+
+/-- everything `snodeDfs` guarantees about subscripts and pointers -/
+theorem snodeDfs_main {jcol kcol : Nat} {asub xaB xaE : Array Nat} {marker : Array Int} {lsub xlsub xprune : Array Nat}
+    (xsup : Array Nat) (supno : Array Int) (h : SnodeWf jcol kcol asub xaB xaE marker lsub xlsub xprune) :
+    let U := markerFilter (snodeRows jcol kcol asub xaB xaE) []
+    let first := xlsub.getD jcol 0
+    let stop := first + (if jcol < kcol then 2 else 1) * U.length
+    let o := snodeDfs jcol kcol asub xaB xaE xprune marker xsup supno lsub xlsub
+    segList o.lsub first U.length = U ∧
+    (jcol < kcol → segList o.lsub (first + U.length) U.length = U) ∧
+    o.lsub.size = lsub.size ∧
+    (∀ k, k < first ∨ stop ≤ k → o.lsub.getD k 0 = lsub.getD k 0) ∧
+    o.xlsub.getD (kcol+1) 0 = stop ∧ o.xprune.getD kcol 0 = stop ∧
+    (∀ i, jcol < i → i ≤ kcol → o.xlsub.getD i 0 = first + U.length) ∧
+    (∀ i, i ≤ jcol ∨ kcol + 1 < i → o.xlsub.getD i 0 = xlsub.getD i 0) ∧
+    (∀ r, r < marker.size → (o.marker.getD r EMPTY = (kcol : Int) ↔ r ∈ U)) ∧
+    (∀ r, r ∉ U → o.marker.getD r EMPTY = marker.getD r EMPTY) := by
+  intro U first stop o
+  have inv := snodeLoop_inv supno h
+  obtain ⟨e1, e2, e3, e4, _, _⟩ := snodeDfs_unfold jcol kcol asub xaB xaE xprune marker xsup supno lsub xlsub
+  have hn : (snodeLoop jcol kcol asub xaB xaE marker supno lsub xlsub).nextl = first + U.length := inv.nextl
+  have hcap := h.cap
+  have hUl : U.length = (markerFilter (snodeRows jcol kcol asub xaB xaE) []).length := rfl
+  by_cases hjk : jcol < kcol
+  · simp only [hjk, if_true] at e2 e3 e4 hcap
+    rw [hn, show first + U.length - first = U.length by omega] at e2 e3 e4
+    have hcd := copyDup_spec U.length first (first + U.length) (snodeLoop jcol kcol asub xaB xaE marker supno lsub xlsub).lsub
+      (le_refl _) (by rw [inv.lsize]; show first + U.length + U.length ≤ lsub.size; change first + 2 * U.length ≤ lsub.size at hcap; omega)
+    have hstop : stop = first + U.length + U.length := by show first + (if jcol < kcol then 2 else 1) * U.length = _; rw [if_pos hjk]; omega
+    refine ⟨?_, ?_, ?_, ?_, ?_, ?_, ?_, ?_, ?_, ?_⟩
+    · apply segList_eq_of; intro t ht
+      show o.lsub.getD _ _ = _
+      rw [e2, hcd.2, if_neg (by omega)]; exact inv.seg t ht
+    · intro _; apply segList_eq_of; intro t ht
+      show o.lsub.getD _ _ = _
+      rw [e2, hcd.2, if_pos (by omega), show first + (first + U.length + t - (first + U.length)) = first + t by omega]
+      exact inv.seg t ht
+    · show o.lsub.size = _; rw [e2, hcd.1, inv.lsize]
+    · intro k hk
+      show o.lsub.getD _ _ = _
+      rw [e2, hcd.2, if_neg (by omega)]; exact inv.frame k (by omega)
+    · show o.xlsub.getD _ _ = _
+      rw [e3, getD_setIfInBounds, if_pos ⟨rfl, by rw [foldl_setRange_size]; exact h.xl⟩]; omega
+    · show o.xprune.getD _ _ = _
+      rw [e4, getD_setIfInBounds, if_pos ⟨rfl, h.xp⟩]; omega
+    · intro i h1 h2
+      show o.xlsub.getD _ _ = _
+      rw [e3, getD_setIfInBounds, if_neg (by omega), foldl_setRange_getD, if_pos ⟨by omega, by omega, by have := h.xl; omega⟩]
+    · intro i hi
+      show o.xlsub.getD _ _ = _
+      rw [e3, getD_setIfInBounds, if_neg (by omega), foldl_setRange_getD, if_neg (by omega)]
+    · intro r hr; show o.marker.getD _ _ = _ ↔ _; rw [e1]; exact inv.mark r hr
+    · intro r hr; show o.marker.getD _ _ = _; rw [e1]; exact inv.mark_else r hr
+  · simp only [hjk, if_false] at e2 e3 e4 hcap
+    have hstop : stop = first + U.length := by show first + (if jcol < kcol then 2 else 1) * U.length = _; rw [if_neg hjk]; omega
+    refine ⟨?_, fun hh => absurd hh hjk, ?_, ?_, ?_, ?_, ?_, ?_, ?_, ?_⟩
+    · apply segList_eq_of; intro t ht
+      show o.lsub.getD _ _ = _
+      rw [e2]; exact inv.seg t ht
+    · show o.lsub.size = _; rw [e2, inv.lsize]
+    · intro k hk
+      show o.lsub.getD _ _ = _
+      rw [e2]; exact inv.frame k (by omega)
+    · show o.xlsub.getD _ _ = _
+      rw [e3, getD_setIfInBounds, if_pos ⟨rfl, h.xl⟩, hn, hstop]
+    · show o.xprune.getD _ _ = _
+      rw [e4, getD_setIfInBounds, if_pos ⟨rfl, h.xp⟩, hn, hstop]
+    · intro i h1 h2; have := h.le; omega
+    · intro i hi
+      show o.xlsub.getD _ _ = _
+      rw [e3, getD_setIfInBounds, if_neg (by have := h.le; omega)]
+    · intro r hr; show o.marker.getD _ _ = _ ↔ _; rw [e1]; exact inv.mark r hr
+    · intro r hr; show o.marker.getD _ _ = _; rw [e1]; exact inv.mark_else r hr
 end Slu.SymbArr
